@@ -370,4 +370,26 @@ theorem track_line (T : TGrid) (k : Nat) (mv : Option Rat) (b : GBlock) (steps :
   rw [trackLoop_line T k mv steps _ none none b [] [] (by omega) hok hline (by intro p hp; cases hp)]
   simp
 
+/-- `find_surface` for one column whose blocks form a vertical line starting at the mapped bottom
+    block: the new surface is the two-case formula applied to the top block of the line, its
+    volume over the column area, and twice its own vertical distance (the block height itself
+    when the line is a single block). -/
+theorem columnSurface_line (T : TGrid) (g : Geo) (mp : BlockMap) (maxVol : Rat) (col : Column)
+    (bottomLayer : Layer) (gn : Str) (bb : GBlock) (steps : List (GConn × GBlock))
+    (hbl : g.layerlist.getLast? = some bottomLayer)
+    (hgn : blockName g.convention bottomLayer.name col.name = .ok gn)
+    (hmp : mp.lookup gn = some bb.name) (hfb : findB T bb.name = .ok bb)
+    (hlen : steps.length ≤ T.blocks.length) (hok : volOk (some maxVol) bb = true)
+    (hline : isLine T 3 (some maxVol) none none bb steps = true)
+    (top : GBlock) (htop : (lineBlocks bb steps).getLast? = some top) (c : P3) (hc : top.centre = some c)
+    (hv : top.volume > 0) :
+    columnSurface T g mp maxVol col =
+      .ok (some (surfaceFormula c.z (top.volume / col.area)
+        (match (lineSizes none bb steps).getLast? with
+         | some t => t
+         | none => top.volume / col.area))) := by
+  unfold columnSurface
+  simp only [hbl, hgn, hmp, hfb, track_line T 3 (some maxVol) bb steps hlen hok hline, htop, hc, hv, if_true]
+  cases (lineSizes none bb steps).getLast? <;> rfl
+
 end Proofs.RectGeo
